@@ -189,14 +189,23 @@ Definition wid_max (t : scale) (B : R) : Z := Zceil (pos t (IZR (Zceil B))) - 1.
 (* altitude a lies in cell j of scale t *)
 Definition in_cell (t : scale) (j : Z) (a : R) : Prop := (cell_lo t j <= a < cell_hi t j)%R.
 
+(* both zoom levels are in the documented range 0..35 (shape.CheckZoom, applied by the two exported conversions since 9dab435) *)
+Definition zooms_ok (s t : scale) : Prop := 0 <= sz s <= 35 /\ 0 <= sz t <= 35.
+Definition zooms_okb (s t : scale) : bool := zoom_ok (sz s) && zoom_ok (sz t).
+
 (* what a conversion of cell i of scale s to scale t may return *)
 Definition conv_spec (s : scale) (i : Z) (t : scale) (r : result (Z * Z)) : Prop :=
   let A := cell_lo s i in let B := cell_hi s i in
   match r with
-  | Ok (mn, mx) => in_range s i /\ in_range t mn /\ in_range t mx /\ mn <= mx /\
+  | Ok (mn, mx) => zooms_ok s t /\ in_range s i /\ in_range t mn /\ in_range t mx /\ mn <= mx /\
                    wid_min t A <= mn <= cov_min t A /\ cov_max t B <= mx <= wid_max t B
-  | Err => ~ (in_range s i /\ in_range t (wid_min t A) /\ in_range t (wid_max t B))
+  | Err => ~ (zooms_ok s t /\ in_range s i /\ in_range t (wid_min t A) /\ in_range t (wid_max t B))
   end.
+
+Lemma zoom_ok_spec z : zoom_ok z = true <-> 0 <= z <= 35.
+Proof. unfold zoom_ok. rewrite andb_true_iff, !Z.leb_le. tauto. Qed.
+Lemma zooms_okb_spec s t : zooms_okb s t = true <-> zooms_ok s t.
+Proof. unfold zooms_okb, zooms_ok. rewrite andb_true_iff, !zoom_ok_spec. tauto. Qed.
 
 Lemma in_rangeb_spec s i : in_rangeb s i = true <-> in_range s i.
 Proof. unfold in_rangeb, in_range. rewrite andb_true_iff, Z.leb_le, Z.ltb_lt. tauto. Qed.
@@ -384,8 +393,8 @@ Definition check_cover (s : scale) (i : Z) (t : scale) (mn mx : Z) : bool :=
 
 Definition check_conv (s : scale) (i : Z) (t : scale) (r : result (Z * Z)) : bool :=
   match r with
-  | Ok (mn, mx) => in_rangeb s i && in_rangeb t mn && in_rangeb t mx && check_cover s i t mn mx
-  | Err => negb (in_rangeb s i && in_rangeb t (wid_min_z s t i) && in_rangeb t (wid_max_z s t i))
+  | Ok (mn, mx) => zooms_okb s t && in_rangeb s i && in_rangeb t mn && in_rangeb t mx && check_cover s i t mn mx
+  | Err => negb (zooms_okb s t && in_rangeb s i && in_rangeb t (wid_min_z s t i) && in_rangeb t (wid_max_z s t i))
   end.
 
 Lemma check_cover_spec s i t mn mx :
@@ -403,8 +412,8 @@ Qed.
 Theorem check_conv_sound s i t r : check_conv s i t r = true <-> conv_spec s i t r.
 Proof.
   destruct r as [[mn mx]|]; cbn [check_conv conv_spec].
-  - rewrite !andb_true_iff, !in_rangeb_spec, check_cover_spec. tauto.
-  - rewrite negb_true_iff, <- not_true_iff_false, !andb_true_iff, !in_rangeb_spec, <- wid_min_z_spec, <- wid_max_z_spec. tauto.
+  - rewrite !andb_true_iff, !in_rangeb_spec, zooms_okb_spec, check_cover_spec. tauto.
+  - rewrite negb_true_iff, <- not_true_iff_false, !andb_true_iff, !in_rangeb_spec, zooms_okb_spec, <- wid_min_z_spec, <- wid_max_z_spec. tauto.
 Qed.
 
 (* ------------------------------------------------------------------------------------------------------------------------------ *)
@@ -464,12 +473,17 @@ Definition key2z_raw (k kz out E O : Z) : Z * Z :=
   (ashift (imin - O) od, if 0 <? od then ashift (imax - O + 1) od - 1 else ashift (imax - O) od).
 Lemma key2z_unfold k kz out E O :
   key2z k kz out E O =
-  if negb (index_exists k kz false) then Err
+  if negb (zoom_ok kz) || negb (zoom_ok out) then Err
+  else if negb (index_exists k kz false) then Err
   else let '(mn, mx) := key2z_raw k kz out E O in if (2 ^ out - 1 <? mx) || (mn <? - 2 ^ out) then Err else Ok (mn, mx).
 Proof.
   unfold key2z, key2z_raw, index_exists. rewrite !ashift_1. cbv zeta.
+  destruct (negb (zoom_ok kz) || negb (zoom_ok out)); [reflexivity|].
   destruct ((2 ^ kz - 1 <? k) || (k <? 0)); reflexivity.
 Qed.
+(* the zoom guard of the two exported conversions, as a statement about scales *)
+Lemma zoom_guard_eq zs zt (s t : scale) : sz s = zs -> sz t = zt -> negb (zoom_ok zs) || negb (zoom_ok zt) = negb (zooms_okb s t).
+Proof. intros <- <-. unfold zooms_okb. now rewrite negb_andb. Qed.
 Lemma key2z_raw_spec k kz out E O :
   key2z_raw k kz out E O = (wid_min_z (key_scale kz E O) (sid_scale out) k, wid_max_z (key_scale kz E O) (sid_scale out) k).
 Proof.
@@ -498,74 +512,97 @@ Proof. split; [apply wid_min_le_cov|split; [apply cov_min_le_max, cell_nonempty|
 (* MAIN THEOREM, forward direction *)
 Theorem z2key_conv f z out E O : conv_spec (sid_scale z) f (key_scale out E O) (z2key f z out E O).
 Proof.
-  unfold z2key. rewrite (index_exists_eq f z true zorigin 0). fold (sid_scale z).
+  unfold z2key. rewrite (zoom_guard_eq z out (sid_scale z) (key_scale out E O) eq_refl eq_refl).
+  destruct (zooms_okb (sid_scale z) (key_scale out E O)) eqn:Hz; cbn [negb].
+  2:{ cbn. intros [H _]. apply zooms_okb_spec in H. congruence. }
+  apply zooms_okb_spec in Hz.
+  rewrite (index_exists_eq f z true zorigin 0). fold (sid_scale z).
   destruct (in_rangeb (sid_scale z) f) eqn:Hs; cbn [negb].
-  2:{ cbn. intros [H _]. apply in_rangeb_spec in H. congruence. }
+  2:{ cbn. intros (_ & H & _). apply in_rangeb_spec in H. congruence. }
   rewrite z2key_raw_exact. rewrite !(index_exists_eq _ out false E O). fold (key_scale out E O).
   pose proof (cover_chain (sid_scale z) f (key_scale out E O)) as (C1 & C2 & C3).
   destruct (in_rangeb (key_scale out E O) (cov_min _ _)) eqn:H1; [destruct (in_rangeb (key_scale out E O) (cov_max _ _)) eqn:H2|]; cbn [andb].
-  - cbn [conv_spec]. apply in_rangeb_spec in Hs, H1, H2. repeat split; try assumption; try lia; apply H1 || apply H2 || apply Hs.
-  - cbn [conv_spec]. intros (_ & W1 & W2). apply not_true_iff_false in H2. apply H2. apply in_rangeb_spec. apply in_rangeb_spec in H1.
+  - cbn [conv_spec]. apply in_rangeb_spec in Hs, H1, H2. split; [exact Hz|]. repeat split; try assumption; try lia; apply H1 || apply H2 || apply Hs.
+  - cbn [conv_spec]. intros (_ & _ & W1 & W2). apply not_true_iff_false in H2. apply H2. apply in_rangeb_spec. apply in_rangeb_spec in H1.
     unfold in_range in *. cbn [sneg key_scale sz] in *. lia.
-  - cbn [conv_spec]. intros (_ & W1 & W2). apply not_true_iff_false in H1. apply H1. apply in_rangeb_spec.
+  - cbn [conv_spec]. intros (_ & _ & W1 & W2). apply not_true_iff_false in H1. apply H1. apply in_rangeb_spec.
     unfold in_range in *. cbn [sneg key_scale sz] in *. lia.
 Qed.
 
 (* MAIN THEOREM, backward direction *)
 Theorem key2z_conv k kz out E O : conv_spec (key_scale kz E O) k (sid_scale out) (key2z k kz out E O).
 Proof.
-  rewrite key2z_unfold. rewrite (index_exists_eq k kz false E O). fold (key_scale kz E O).
+  rewrite key2z_unfold. rewrite (zoom_guard_eq kz out (key_scale kz E O) (sid_scale out) eq_refl eq_refl).
+  destruct (zooms_okb (key_scale kz E O) (sid_scale out)) eqn:Hz; cbn [negb].
+  2:{ cbn. intros [H _]. apply zooms_okb_spec in H. congruence. }
+  apply zooms_okb_spec in Hz.
+  rewrite (index_exists_eq k kz false E O). fold (key_scale kz E O).
   destruct (in_rangeb (key_scale kz E O) k) eqn:Hs; cbn [negb].
-  2:{ cbn. intros [H _]. apply in_rangeb_spec in H. congruence. }
+  2:{ cbn. intros (_ & H & _). apply in_rangeb_spec in H. congruence. }
   rewrite key2z_raw_widened.
   pose proof (cover_chain (key_scale kz E O) k (sid_scale out)) as (C1 & C2 & C3).
   set (wmn := wid_min _ _) in *. set (wmx := wid_max _ _) in *.
   destruct (Z.ltb_spec (2 ^ out - 1) wmx) as [H1|H1]; [|destruct (Z.ltb_spec wmn (- 2 ^ out)) as [H2|H2]]; cbn [orb conv_spec].
-  - intros (_ & _ & W). unfold in_range in W. cbn [sneg sid_scale sz] in W. lia.
-  - intros (_ & W & _). unfold in_range in W. cbn [sneg sid_scale sz] in W. lia.
-  - apply in_rangeb_spec in Hs. unfold in_range. cbn [sneg sid_scale sz]. repeat split; try lia; apply Hs.
+  - intros (_ & _ & _ & W). unfold in_range in W. cbn [sneg sid_scale sz] in W. lia.
+  - intros (_ & _ & W & _). unfold in_range in W. cbn [sneg sid_scale sz] in W. lia.
+  - apply in_rangeb_spec in Hs. unfold in_range. cbn [sneg sid_scale sz]. split; [exact Hz|]. repeat split; try lia; apply Hs.
 Qed.
 
 (* ------------------------------------------------------------------------------------------------------------------------------ *)
 (** * 5. Consequences in the words of the property                                                                                  *)
 
-(* anything satisfying conv_spec: error is forced when the source index does not exist or the exact cover leaves the target range,
-   and excluded when the source exists and even the widened cover fits *)
+(* anything satisfying conv_spec: error is forced when a zoom is outside 0..35, the source index does not exist or the exact cover leaves
+   the target range, and excluded when the zooms are in 0..35, the source exists and even the widened cover fits *)
 Lemma conv_spec_must_err s i t r : conv_spec s i t r ->
-  (~ in_range s i \/ ~ (in_range t (cov_min t (cell_lo s i)) /\ in_range t (cov_max t (cell_hi s i)))) -> r = Err.
+  (~ zooms_ok s t \/ ~ in_range s i \/ ~ (in_range t (cov_min t (cell_lo s i)) /\ in_range t (cov_max t (cell_hi s i)))) -> r = Err.
 Proof.
-  destruct r as [[mn mx]|]; [|reflexivity]. cbn [conv_spec]. intros (Hs & H1 & H2 & Hle & Hmn & Hmx) [N|N]; [tauto|]. exfalso. apply N.
+  destruct r as [[mn mx]|]; [|reflexivity]. cbn [conv_spec]. intros (Hz & Hs & H1 & H2 & Hle & Hmn & Hmx) [N|[N|N]]; [tauto|tauto|]. exfalso. apply N.
   pose proof (cover_chain s i t) as (C1 & C2 & C3). unfold in_range in *. destruct (sneg t); lia.
 Qed.
 Lemma conv_spec_must_ok s i t r : conv_spec s i t r ->
-  in_range s i -> in_range t (wid_min t (cell_lo s i)) -> in_range t (wid_max t (cell_hi s i)) -> exists mn mx, r = Ok (mn, mx).
+  zooms_ok s t -> in_range s i -> in_range t (wid_min t (cell_lo s i)) -> in_range t (wid_max t (cell_hi s i)) -> exists mn mx, r = Ok (mn, mx).
 Proof. destruct r as [[mn mx]|]; [intros; now exists mn, mx|]. cbn [conv_spec]. tauto. Qed.
+
+(* -- zoom levels outside 0..35 are refused by both exported conversions (fix 9dab435) -- *)
+Theorem z2key_bad_zoom f z out E O : ~ (0 <= z <= 35 /\ 0 <= out <= 35) -> z2key f z out E O = Err.
+Proof.
+  intros N. apply (conv_spec_must_err (sid_scale z) f (key_scale out E O) _ (z2key_conv f z out E O)). left. exact N.
+Qed.
+Theorem key2z_bad_zoom k kz out E O : ~ (0 <= kz <= 35 /\ 0 <= out <= 35) -> key2z k kz out E O = Err.
+Proof.
+  intros N. apply (conv_spec_must_err (key_scale kz E O) k (sid_scale out) _ (key2z_conv k kz out E O)). left. exact N.
+Qed.
 
 (* -- forward: ConvertZToMinMaxAltitudekey -- *)
 Theorem z2key_ok f z out E O mn mx : z2key f z out E O = Ok (mn, mx) ->
   let s := sid_scale z in let t := key_scale out E O in
   mn = cov_min t (cell_lo s f) /\ mx = cov_max t (cell_hi s f) /\ mn <= mx /\
-  (- 2 ^ z <= f < 2 ^ z) /\ 0 <= mn /\ mx < 2 ^ out.
+  (- 2 ^ z <= f < 2 ^ z) /\ 0 <= mn /\ mx < 2 ^ out /\ 0 <= z <= 35 /\ 0 <= out <= 35.
 Proof.
   intros H s t. pose proof (z2key_conv f z out E O) as C. rewrite H in C. cbn [conv_spec] in C. fold s t in C.
-  destruct C as (Hs & H1 & H2 & Hle & _ & _).
-  unfold z2key in H. destruct (negb (index_exists f z true)); [discriminate|].
+  destruct C as (Hz & Hs & H1 & H2 & Hle & _ & _).
+  unfold z2key in H. destruct (negb (zoom_ok z) || negb (zoom_ok out)); [discriminate|].
+  destruct (negb (index_exists f z true)); [discriminate|].
   rewrite z2key_raw_exact in H. fold s t in H. destruct (_ && _); [|discriminate]. injection H as <- <-.
-  unfold in_range in *. cbn [s t sid_scale key_scale sneg sz] in *. repeat split; lia.
+  unfold in_range, zooms_ok in *. cbn [s t sid_scale key_scale sneg sz] in *. repeat split; lia.
 Qed.
 Theorem z2key_err_iff f z out E O :
   let s := sid_scale z in let t := key_scale out E O in
-  z2key f z out E O = Err <-> ~ (- 2 ^ z <= f < 2 ^ z) \/ ~ (0 <= cov_min t (cell_lo s f) /\ cov_max t (cell_hi s f) < 2 ^ out).
+  z2key f z out E O = Err <->
+  ~ (0 <= z <= 35 /\ 0 <= out <= 35) \/ ~ (- 2 ^ z <= f < 2 ^ z) \/ ~ (0 <= cov_min t (cell_lo s f) /\ cov_max t (cell_hi s f) < 2 ^ out).
 Proof.
   intros s t. split.
-  - intros H. unfold z2key in H. rewrite (index_exists_eq f z true zorigin 0) in H. fold (sid_scale z) in H. fold s in H.
+  - intros H. unfold z2key in H. rewrite (zoom_guard_eq z out s t eq_refl eq_refl) in H.
+    destruct (zooms_okb s t) eqn:Hz; cbn [negb] in H.
+    2:{ left. intros N. apply not_true_iff_false in Hz. apply Hz. apply zooms_okb_spec. exact N. }
+    right. rewrite (index_exists_eq f z true zorigin 0) in H. fold (sid_scale z) in H. fold s in H.
     destruct (in_rangeb s f) eqn:Hs; cbn [negb] in H.
     + right. rewrite z2key_raw_exact in H. fold s t in H. rewrite !(index_exists_eq _ out false E O) in H. fold (key_scale out E O) in H. fold t in H.
       destruct (in_rangeb t (cov_min t (cell_lo s f)) && in_rangeb t (cov_max t (cell_hi s f))) eqn:Hb; [discriminate|].
       intros [N1 N2]. apply not_true_iff_false in Hb. apply Hb. rewrite andb_true_iff, !in_rangeb_spec.
       pose proof (cover_chain s f t) as (C1 & C2 & C3). unfold in_range. cbn [t key_scale sneg sz]. lia.
     + left. intros N. apply not_true_iff_false in Hs. apply Hs. apply in_rangeb_spec. exact N.
-  - intros H. apply (conv_spec_must_err s f t _ (z2key_conv f z out E O)). destruct H as [H|H]; [left; exact H|right].
+  - intros H. apply (conv_spec_must_err s f t _ (z2key_conv f z out E O)). destruct H as [H|[H|H]]; [left; exact H|right; left; exact H|right; right].
     intros [N1 N2]. apply H. unfold in_range in N1, N2. cbn [t key_scale sneg sz] in N1, N2. lia.
 Qed.
 
@@ -575,35 +612,38 @@ Theorem key2z_ok k kz out E O mn mx : key2z k kz out E O = Ok (mn, mx) ->
   mn = wid_min t (cell_lo s k) /\ mx = wid_max t (cell_hi s k) /\
   mn <= cov_min t (cell_lo s k) /\ cov_max t (cell_hi s k) <= mx /\ mn <= mx /\
   ((kz <= E \/ out <= zorigin) -> mn = cov_min t (cell_lo s k) /\ mx = cov_max t (cell_hi s k)) /\
-  0 <= k < 2 ^ kz /\ - 2 ^ out <= mn /\ mx < 2 ^ out.
+  0 <= k < 2 ^ kz /\ - 2 ^ out <= mn /\ mx < 2 ^ out /\ 0 <= kz <= 35 /\ 0 <= out <= 35.
 Proof.
   intros H s t. pose proof (key2z_conv k kz out E O) as C. rewrite H in C. cbn [conv_spec] in C. fold s t in C.
-  destruct C as (Hs & H1 & H2 & Hle & Hmn & Hmx).
-  rewrite key2z_unfold in H. destruct (negb (index_exists k kz false)); [discriminate|].
+  destruct C as (Hz & Hs & H1 & H2 & Hle & Hmn & Hmx).
+  rewrite key2z_unfold in H. destruct (negb (zoom_ok kz) || negb (zoom_ok out)); [discriminate|].
+  destruct (negb (index_exists k kz false)); [discriminate|].
   rewrite key2z_raw_widened in H. fold s t in H. destruct (_ || _); [discriminate|]. injection H as <- <-.
-  unfold in_range in *. cbn [s t sid_scale key_scale sneg sz] in *. repeat split; try lia.
+  unfold in_range, zooms_ok in *. cbn [s t sid_scale key_scale sneg sz] in *. repeat split; try lia.
   - apply (wid_eq_cov s k t). exact H.
   - apply (wid_eq_cov s k t). exact H.
 Qed.
 Theorem key2z_err_iff k kz out E O :
   let s := key_scale kz E O in let t := sid_scale out in
-  key2z k kz out E O = Err <-> ~ (0 <= k < 2 ^ kz) \/ ~ (- 2 ^ out <= wid_min t (cell_lo s k) /\ wid_max t (cell_hi s k) < 2 ^ out).
+  key2z k kz out E O = Err <->
+  ~ (0 <= kz <= 35 /\ 0 <= out <= 35) \/ ~ (0 <= k < 2 ^ kz) \/ ~ (- 2 ^ out <= wid_min t (cell_lo s k) /\ wid_max t (cell_hi s k) < 2 ^ out).
 Proof.
   intros s t. pose proof (key2z_conv k kz out E O) as C. fold s t in C.
   pose proof (cover_chain s k t) as (C1 & C2 & C3).
   destruct (key2z k kz out E O) as [[mn mx]|] eqn:H.
-  - split; [discriminate|]. intros N. exfalso. apply key2z_ok in H. fold s t in H. destruct H as (-> & -> & _ & _ & _ & _ & Hk & L & U).
-    destruct N as [N|N]; apply N; lia.
+  - split; [discriminate|]. intros N. exfalso. apply key2z_ok in H. fold s t in H. destruct H as (-> & -> & _ & _ & _ & _ & Hk & L & U & Z1 & Z2).
+    destruct N as [N|[N|N]]; apply N; lia.
   - split; [|reflexivity]. intros _. cbn [conv_spec] in C.
-    destruct (Z_le_dec 0 k), (Z_lt_dec k (2 ^ kz)); try (left; lia). right. intros [N1 N2]. apply C.
-    unfold in_range. cbn [s t sid_scale key_scale sneg sz]. lia.
+    destruct (Z_le_dec 0 kz), (Z_le_dec kz 35), (Z_le_dec 0 out), (Z_le_dec out 35); try (left; lia).
+    right. destruct (Z_le_dec 0 k), (Z_lt_dec k (2 ^ kz)); try (left; lia). right. intros [N1 N2]. apply C.
+    unfold in_range, zooms_ok. cbn [s t sid_scale key_scale sneg sz]. lia.
 Qed.
 (* the band: an error is forced when the exact cover leaves the index range *)
 Corollary key2z_err_when_exact_cover_leaves k kz out E O :
   let s := key_scale kz E O in let t := sid_scale out in
   ~ (- 2 ^ out <= cov_min t (cell_lo s k) /\ cov_max t (cell_hi s k) < 2 ^ out) -> key2z k kz out E O = Err.
 Proof.
-  intros s t N. apply (conv_spec_must_err s k t _ (key2z_conv k kz out E O)). right. intros [N1 N2]. apply N.
+  intros s t N. apply (conv_spec_must_err s k t _ (key2z_conv k kz out E O)). right. right. intros [N1 N2]. apply N.
   unfold in_range in N1, N2. cbn [t sid_scale sneg sz] in N1, N2. lia.
 Qed.
 
@@ -720,6 +760,7 @@ Definition validatem (i z : Z) (neg : bool) : M bool :=
 
 (* ConvertZToMinMaxAltitudekey *)
 Definition z2key64m (f z out E O : Z) : M (result (Z * Z)) :=
+  if negb (zoom_ok z) || negb (zoom_ok out) then ret Err else        (* shape.CheckZoom on both zooms *)
   ok <- validatem f z true ;;
   if negb ok then ret Err else
   d <- ex (z - zorigin) ;;
@@ -747,6 +788,7 @@ Definition z2minkey64m (f z out E O : Z) : M (result Z) :=
 
 (* ConvertAltitudekeyToMinMaxZ *)
 Definition key2z64m (k kz out E O : Z) : M (result (Z * Z)) :=
+  if negb (zoom_ok kz) || negb (zoom_ok out) then ret Err else       (* shape.CheckZoom on both zooms *)
   inres <- shiftm 1 kz ;; maxin <- ex (inres - 1) ;;
   if (maxin <? k) || (k <? 0) then ret Err else
   zd <- ex (E - kz) ;;
@@ -804,6 +846,7 @@ Qed.
 Theorem z2key64m_exact f z out E O r : z2key64m f z out E O = Some (r, true) -> r = z2key f z out E O.
 Proof.
   unfold z2key64m, z2key, z2key_raw. intros H.
+  destruct (negb (zoom_ok z) || negb (zoom_ok out)); [apply ret_inv in H; now subst|].
   apply bind_inv in H. destruct H as (ok & E0 & H). apply validatem_inv in E0. subst ok.
   destruct (negb (index_exists f z true)); [apply ret_inv in H; now subst|].
   minv H.
@@ -825,7 +868,8 @@ Proof.
 Qed.
 Theorem key2z64m_exact k kz out E O r : key2z64m k kz out E O = Some (r, true) -> r = key2z k kz out E O.
 Proof.
-  unfold key2z64m, key2z. intros H. minv H.
+  unfold key2z64m, key2z. intros H.
+  destruct (negb (zoom_ok kz) || negb (zoom_ok out)); [apply ret_inv in H; now subst|]. minv H.
   destruct ((ashift 1 kz - 1 <? k) || (k <? 0)); [apply ret_inv in H; now subst|].
   minv H. cbv zeta.
   apply bind_inv in H. destruct H as (imax & E1 & H).
@@ -903,6 +947,7 @@ Theorem z2key64m_domain f z out E O :
   z2key64m f z out E O = Some (z2key f z out E O, true).
 Proof.
   intros Hz Hout HE HO. unfold z2key64m, z2key, z2key_raw.
+  rewrite (proj2 (zoom_ok_spec z) Hz), (proj2 (zoom_ok_spec out) Hout). cbn [negb orb].
   rewrite (bind_ok _ _ _ (validatem_ok f z true ltac:(lia))).
   destruct (index_exists f z true) eqn:V; cbn [negb]; [|reflexivity].
   apply index_exists_spec in V.
@@ -953,6 +998,7 @@ Theorem key2z64m_domain k kz out E O :
   key2z64m k kz out E O = Some (key2z k kz out E O, true).
 Proof.
   intros Hkz Hout HE HO. unfold key2z64m, key2z.
+  rewrite (proj2 (zoom_ok_spec kz) Hkz), (proj2 (zoom_ok_spec out) Hout). cbn [negb orb].
   pose proof (pow2_le kz 35 ltac:(lia)) as Hpk. pose proof (pow2_le out 35 ltac:(lia)) as Hpo.
   rewrite (bind_ok _ _ _ (shiftm_ok 1 kz ltac:(lia) ltac:(rewrite ashift_1; lia))).
   rewrite !ashift_1.
@@ -1021,3 +1067,99 @@ Proof.
   split; [vm_compute; reflexivity|]. split; [vm_compute; reflexivity|].
   intros C. apply check_conv_sound in C. vm_compute in C. discriminate.
 Qed.
+
+(* ------------------------------------------------------------------------------------------------------------------------------ *)
+(** * 8. Zoom guard of the exported conversions on int64, and where a panic remains reachable                                        *)
+
+(* a zoom outside 0..35 (any int64, MinInt64 included) is answered with an error before any shift is computed: no wrap, no panic *)
+Theorem z2key64m_bad_zoom f z out E O : ~ (0 <= z <= 35 /\ 0 <= out <= 35) -> z2key64m f z out E O = Some (Err, true).
+Proof.
+  intros N. unfold z2key64m. destruct (zoom_ok z) eqn:H1; [destruct (zoom_ok out) eqn:H2|]; cbn [negb orb]; try reflexivity.
+  exfalso. apply N. apply zoom_ok_spec in H1, H2. tauto.
+Qed.
+Theorem key2z64m_bad_zoom k kz out E O : ~ (0 <= kz <= 35 /\ 0 <= out <= 35) -> key2z64m k kz out E O = Some (Err, true).
+Proof.
+  intros N. unfold key2z64m. destruct (zoom_ok kz) eqn:H1; [destruct (zoom_ok out) eqn:H2|]; cbn [negb orb]; try reflexivity.
+  exfalso. apply N. apply zoom_ok_spec in H1, H2. tauto.
+Qed.
+
+Lemma bind_any {A B} (m : M A) (k : A -> M B) : m <> None -> (forall a, k a <> None) -> bind m k <> None.
+Proof. unfold bind. destruct m as [[a e]|]; [|congruence]. intros _ H. specialize (H a). destruct (k a) as [[b e']|]; congruence. Qed.
+Lemma bind_ex (x : Z) {B} (k : Z -> M B) : k (w64 x) <> None -> bind (ex x) k <> None.
+Proof. unfold bind, ex. destruct (k (w64 x)) as [[b e']|]; congruence. Qed.
+Lemma shiftm_some i s : - 2 ^ 63 < s < 2 ^ 63 -> shiftm i s <> None.
+Proof.
+  intros Hs. unfold shiftm. destruct (0 <=? s) eqn:H0.
+  - destruct (64 <=? s); unfold ex; discriminate.
+  - apply Z.leb_gt in H0. apply bind_ex. rewrite w64_id by (apply i64_spec; lia).
+    destruct (Z.ltb_spec (- s) 0); [lia|]. destruct (64 <=? - s); unfold ret; discriminate.
+Qed.
+Lemma validatem_some i z neg : - 2 ^ 63 < z < 2 ^ 63 -> validatem i z neg <> None.
+Proof.
+  intros Hz. unfold validatem. apply bind_any; [now apply shiftm_some|]. intros r. apply bind_ex.
+  apply bind_any; [destruct neg; unfold ex, ret; discriminate|]. intros mn. unfold ret. discriminate.
+Qed.
+
+(* the exported conversions cannot panic as long as the base exponent is not astronomically negative/positive ... *)
+Theorem z2key64m_no_panic f z out E O : - 2 ^ 62 <= E <= 2 ^ 62 -> z2key64m f z out E O <> None.
+Proof.
+  intros HE. unfold z2key64m.
+  destruct (zoom_ok z) eqn:Hz; [destruct (zoom_ok out) eqn:Ho|]; cbn [negb orb]; try (unfold ret; discriminate).
+  apply zoom_ok_spec in Hz, Ho.
+  apply bind_any; [apply validatem_some; lia|]. intros ok. destruct (negb ok); [unfold ret; discriminate|].
+  apply bind_ex. rewrite (w64_id (z - zorigin)) by (apply i64_spec; unfold zorigin; lia).
+  set (p := if z - zorigin <? 0 then 0 else z - zorigin). cbv zeta. fold p.
+  assert (Hp : 0 <= p <= 10) by (unfold p, zorigin; destruct (Z.ltb_spec (z - 25) 0); lia).
+  apply bind_ex. rewrite (w64_id (zorigin - z)) by (apply i64_spec; unfold zorigin; lia).
+  apply bind_ex. rewrite (w64_id (zorigin - z + p)) by (apply i64_spec; unfold zorigin; lia).
+  apply bind_any; [apply shiftm_some; unfold zorigin; lia|]. intros lower.
+  apply bind_ex. apply bind_any; [apply shiftm_some; unfold zorigin; lia|]. intros upper.
+  apply bind_any; [apply shiftm_some; lia|]. intros offset.
+  apply bind_ex. rewrite (w64_id (out - E)) by (apply i64_spec; lia).
+  apply bind_ex. rewrite (w64_id (out - E - p)) by (apply i64_spec; lia).
+  apply bind_ex. apply bind_any; [apply shiftm_some; lia|]. intros mn.
+  apply bind_ex. apply bind_ex. apply bind_any; [apply shiftm_some; lia|]. intros b.
+  apply bind_ex. apply bind_ex.
+  apply bind_any; [apply validatem_some; lia|]. intros ok1.
+  apply bind_any; [destruct ok1; [apply validatem_some; lia|unfold ret; discriminate]|]. intros ok2. unfold ret. discriminate.
+Qed.
+Theorem key2z64m_no_panic k kz out E O : - 2 ^ 62 <= E <= 2 ^ 62 -> key2z64m k kz out E O <> None.
+Proof.
+  intros HE. unfold key2z64m.
+  destruct (zoom_ok kz) eqn:Hz; [destruct (zoom_ok out) eqn:Ho|]; cbn [negb orb]; try (unfold ret; discriminate).
+  apply zoom_ok_spec in Hz, Ho.
+  apply bind_any; [apply shiftm_some; lia|]. intros inres. apply bind_ex.
+  destruct (_ || _); [unfold ret; discriminate|].
+  apply bind_ex. rewrite (w64_id (E - kz)) by (apply i64_spec; lia).
+  apply bind_any; [apply shiftm_some; lia|]. intros imin.
+  apply bind_any.
+  { destruct (0 <? E - kz); [|unfold ret; discriminate]. apply bind_ex. apply bind_any; [apply shiftm_some; lia|]. intros x. unfold ex. discriminate. }
+  intros imax. apply bind_ex. rewrite (w64_id (out - zorigin)) by (apply i64_spec; unfold zorigin; lia).
+  apply bind_ex. apply bind_any; [apply shiftm_some; unfold zorigin; lia|]. intros omin.
+  apply bind_ex. apply bind_any; [apply shiftm_some; unfold zorigin; lia|]. intros omax0.
+  apply bind_any.
+  { destruct (0 <? out - zorigin); [|unfold ret; discriminate]. apply bind_ex. apply bind_any; [apply shiftm_some; unfold zorigin; lia|]. intros x. unfold ex. discriminate. }
+  intros omax. apply bind_any; [apply shiftm_some; lia|]. intros ores. apply bind_ex. apply bind_ex. unfold ret. discriminate.
+Qed.
+(* ... but zBaseExponent is not validated: with zBaseExponent = MinInt64 + outputZoom (forward) or MinInt64 + key zoom (backward)
+   the shift count is MinInt64, its negation wraps, and Go panics with "negative shift amount" *)
+Theorem exponent_panic_refuted :
+  go_result (z2key64m 0 25 10 (- 2 ^ 63 + 10) 0) = None /\ go_result (key2z64m 0 3 25 (- 2 ^ 63 + 3) 0) = None.
+Proof. split; vm_compute; reflexivity. Qed.
+
+(* the backward direction wraps too, much later: with key zoom 0, base exponent 0, offset 2^54 and target zoom 35 the key cell is
+   [-2^54, -2^54+1) m, far below the spatial-ID range, but (imin - O) << 10 = -2^64 wraps to 0 and (0, 1023) is returned *)
+Theorem int64_overflow_refuted_backward :
+  exists k kz out E O, 0 <= kz <= 35 /\ 0 <= out <= 35 /\ 0 <= E <= 35 /\ O = 2 ^ 54 /\
+    go_result (key2z64m k kz out E O) = Some (Ok (0, 1023)) /\ key2z k kz out E O = Err /\
+    ~ conv_spec (key_scale kz E O) k (sid_scale out) (Ok (0, 1023)).
+Proof.
+  exists 0, 0, 35, 0, (2 ^ 54).
+  split; [lia|]. split; [lia|]. split; [lia|]. split; [reflexivity|].
+  split; [vm_compute; reflexivity|]. split; [vm_compute; reflexivity|].
+  intros C. apply check_conv_sound in C. vm_compute in C. discriminate.
+Qed.
+(* the bounds 2^27 / 2^50 of section 7 are sufficient, not tight: the first forward wrap inside the zoom/exponent domain is at offset 7*2^25 *)
+Example first_forward_wrap :
+  exact64 (z2key64m (2 ^ 35 - 1) 35 35 0 (7 * 2 ^ 25)) = false /\ exact64 (z2key64m (2 ^ 35 - 1) 35 35 0 (7 * 2 ^ 25 - 1)) = true.
+Proof. split; vm_compute; reflexivity. Qed.
